@@ -20,7 +20,8 @@ EXPLANATION = (
     "aggregated area are antisymmetric. R03.6: the zero-length arm returns zeros for every slot and never touches the "
     "tree. R03.7: each wrapper uses an admissible (time map, output map): identity/identity (+w0 only for point "
     "evaluation), or reflection with U -> (tb-ta) W - U, A -> -A. Not decided: values after arbitrary histories (C05), "
-    "floating-point tolerance."
+    "floating-point tolerance. Also runs R05.5 (no in-place update of possibly cached tensors), because a mutated cached "
+    "increment makes later overlapping queries disagree."
 )
 
 
@@ -215,3 +216,6 @@ def run(ctx):
     ctx.guard(r03_4)
     ctx.guard(r03_6)
     ctx.guard(r03_7)
+    # one path also means later queries see the same stored values: no in-place update of a tensor that may be cached
+    from . import c05
+    ctx.guard(c05.r05_5)
